@@ -293,3 +293,32 @@ func ReplayShard(path string) int {
 	}
 	return r.Shard
 }
+
+// WaitLive waits for done for up to limit of *healthy* time: the wait is cut into 50 ms slices, and a slice that took
+// far longer than that (the process, or the whole machine, stood still - a snapshot, an oversubscribed host) does not
+// count, because whatever done is waiting for stood still as well and all timers that expired meanwhile fire at once
+// when the world goes on. A liveness verdict is only given after limit of time in which this goroutine itself was
+// being scheduled normally.
+func WaitLive(done <-chan struct{}, limit time.Duration) bool {
+	const slice = 50 * time.Millisecond
+	healthy := time.Duration(0)
+	for healthy < limit {
+		t0 := time.Now()
+		tm := time.NewTimer(slice)
+		select {
+		case <-done:
+			tm.Stop()
+			return true
+		case <-tm.C:
+		}
+		if d := time.Since(t0); d < 4*slice {
+			healthy += d
+		}
+	}
+	select {
+	case <-done:
+		return true
+	default:
+		return false
+	}
+}
